@@ -336,7 +336,7 @@ def native_replay(name, tape, profile="debug", focus=""):
         return dict(outcome="crash", raw=out[-2000:], rc=rc)
 
 
-def pubcheck(prop, notes, profile="debug"):
+def pubcheck(prop, notes, profile="release"):
     """public-API confirmation on the concrete input of a counterexample (stage 2)."""
     ok, path = build_replay(profile)
     if not ok:
@@ -344,7 +344,7 @@ def pubcheck(prop, notes, profile="debug"):
     exe = os.path.join(path, "pubcheck")
     if not os.path.exists(exe):
         return dict(outcome="unavailable")
-    rc, out, _ = run([exe, prop, json.dumps(notes)], VERIF, 300)
+    rc, out, _ = run([exe, prop, json.dumps(notes)], VERIF, 900)
     last = [l for l in out.splitlines() if l.startswith("{")]
     try:
         return json.loads(last[-1])
@@ -404,8 +404,22 @@ def decide_harness(h, tier, prop=""):
             # natively under a watchdog: only a native hang is reported.
             log2 = os.path.join(LOGS, name + ".playback.log")
             rc2, out2, wall2 = run(kani_cmd(h, ["-Z", "concrete-playback", "--concrete-playback=print"]),
-                                   KANI_DIR, h["timeout"], h["mem"], log2)
+                                   KANI_DIR, h["timeout"] * 2, min(h["mem"] * 2, 44), log2)
             rec["wall_s"] = round(wall + wall2, 1)
+            # Kani prints no playback test for a failed unwinding assertion; the public-API monitor runs
+            # canonical inputs (blank tails, CR tails, truncated records) of the affected format under a
+            # watchdog instead
+            pc = pubcheck("C06", dict(format="fasta" if name.startswith("fak") else "fastq" if name.startswith("fqk") else "both"))
+            if pc.get("outcome") == "fail" and "does not return" in pc.get("message", ""):
+                rec["verdict"] = "cex-reproduced"
+                rec["tape"] = []
+                nat = dict(outcome="hang", message="C06 " + pc["message"] + " :: " + pc.get("scenario", ""), notes=dict(scenario=pc.get("scenario", "")))
+                rec["native_debug"] = nat
+                rec["native_release"] = nat
+                rec["pubcheck"] = pc
+                rec["confirmed_by_pubcheck"] = True
+                rec["failed"] = [dict(check="unwinding", desc="unwinding assertion of a loop of the code under test", loc="")]
+                return rec
             for kind, desc, tape in [t for t in parse_playback(out2) if "unwinding" in t[1]][:4]:
                 nat = native_replay(name, tape, "release", "")
                 if nat.get("outcome") == "hang":
@@ -441,7 +455,7 @@ def decide_harness(h, tier, prop=""):
         env2["SV_FOCUS"] = (lemma or prop) if prop != "ALL" else ""
         log2 = os.path.join(LOGS, name + ".playback.log")
         rc2, out2, wall2 = run(kani_cmd(h, ["-Z", "concrete-playback", "--concrete-playback=print"]),
-                               KANI_DIR, h["timeout"], h["mem"], log2, env=env2)
+                               KANI_DIR, h["timeout"] * 2, min(h["mem"] * 2, 44), log2, env=env2)
         rec["wall_s"] = round(wall + wall2, 1)
         tests = [t for t in parse_playback(out2) if t[0] != "cover"]
         # counterexamples of this property's (or the lemma's) obligations first
@@ -564,7 +578,9 @@ def main():
             # stage 2 for harnesses that start from an internal state
             h = reg[r["harness"]]
             confirmed = True
-            if h.get("stage2", "no") == "pub" or r.get("lemma_of"):
+            if r.get("confirmed_by_pubcheck"):
+                confirmed = True
+            elif h.get("stage2", "no") == "pub" or r.get("lemma_of"):
                 pc = pubcheck(prop, nat.get("notes", {}))
                 r["pubcheck"] = pc
                 confirmed = pc.get("outcome") == "fail"
